@@ -15,6 +15,8 @@ from prog import walk
 def jd_tables(ctx):
     from rules.c01 import jd_month_tables
     jd_month_tables(ctx, [(y, m) for y in range(1, 10000) for m in range(1, 13)])
+    from rules.c12 import jd_clock_rules
+    jd_clock_rules(ctx)       # Julian date -> clock: seconds rounding and the 60 -> minute -> hour -> next-day carries (term instants become days through them)
 
 
 def memo_transparent(ctx, full=False):
@@ -175,6 +177,17 @@ def memo_cells(ctx):
                     bad.append('%s overwrites field %s of another %s value in place (%s:%s): its memo cells keep answers computed for the old field value' % (fn.qname, n['l']['name'], ty, fn.file, n.get('ln')))
             walk(fn.body, v)
         multi = [(c, sorted(w)) for c, w in writers.items() if len(w) > 1]
+        # a memo cell may only be looked at by the getter that fills it (and the constructor): any other reader answers differently
+        # depending on whether that getter happened to run before
+        for fn in p.all_fns:
+            if fn.body is None or fn.owner != ty or fn.qname == '%s::new' % ty:
+                continue
+
+            def vr(n, fn=fn):
+                if n.get('k') == 'field' and n['name'] in cells and n['e'].get('k') == 'path' and n['e']['segs'] == ['self']:
+                    if fn.qname not in writers.get(n['name'], set()):
+                        bad.append('%s reads the memo cell %s.%s although it is not the getter that fills it (%s:%s): its answer depends on which other queries ran before' % (fn.qname, ty, n['name'], fn.file, n.get('ln')))
+            walk(fn.body, vr)
         if bad:
             ctx.violation('EFFECT-CELL', 'EFFECT:%s:cells' % ty, bad[0], {'all': bad})
         elif multi:
@@ -199,6 +212,7 @@ def month_records(ctx):
     tbl = c03.table_rules(ctx, ctx.interp(), 'shared')
     if tbl is not None:
         c03.anchor_rule(ctx, tbl)
+    c03.length_rule(ctx)
     memo_transparent(ctx, full=False)
     memo_cells(ctx)
 
